@@ -536,4 +536,220 @@ theorem fieldTail_toks (n : Int) (l : Nat) (more : List PTok) :
     have : (n.natAbs : Int) = n := by omega
     simp [this]
 
+/-- the field as the reader finds it on line `l` -/
+def locField (label ty name : String) (num : Int) (l : Nat) (trail : String) : Layout.FieldD :=
+  ⟨.field, ⟨l, l, [], "", trail⟩, 0, label, ty, name, num,
+    some (String.ofList (OptionText.defaultJSONName name.toList)), []⟩
+
+theorem mkField_plain (l : Nat) (label ty name : String) (num : Int) (r : List PTok) :
+    mkField .field l Cm.none label ty name (num, [], l, r) = (locField label ty name num l (trailOf r), r) := by
+  simp [mkField, locField, mkLoc, Cm.none, jsonOf, mkOpts, groupOpts, unlocateShared]
+
+/-- `type name = number;` after the label -/
+theorem fieldAfterLabel_plain (t0 : PTok) (ht0 : t0.cm = Cm.none) (label : String) (abs : Bool) (first : String)
+    (rest : List String) (name : String) (num : Int) (l : Nat) (hl : t0.line = l)
+    (more : List PTok) (hf : IsIdent first) (hkw : abs = false → first ≠ "map") :
+    fieldAfterLabel t0 label (tyToks abs first rest l ++ T (.ident name) l :: (tailToks num l ++ more)) =
+      some (locField label (tyStr abs first rest) name num l (trailOf more), more) := by
+  have hty := typeName_toks abs first rest l (T (.ident name) l :: (tailToks num l ++ more)) hf.ne_empty
+    (by intro t r h; simp only [List.cons.injEq] at h; rw [← h.1]; simp [T])
+  cases abs with
+  | true =>
+    simp only [tyToks, if_true, List.cons_append, List.nil_append, T] at hty ⊢
+    simp only [fieldAfterLabel, plainField]
+    rw [hty]
+    simp only [fieldTail_toks, Option.map_some, hl, ht0, mkField_plain]
+  | false =>
+    have h3 := hkw rfl
+    simp only [tyToks, Bool.false_eq_true, if_false, List.cons_append, List.nil_append, T] at hty ⊢
+    simp only [fieldAfterLabel, plainField]
+    split
+    · rename_i s l1 c1 c l2 c2 r heq
+      have hs : s = first := by
+        simp only [List.cons.injEq, PTok.mk.injEq, Tok.ident.injEq] at heq
+        exact heq.1.1.symm
+      subst hs
+      have hm : (s == "map" && c == '<') = false := by simp [h3]
+      rw [hm, ← heq, hty]
+      simp only [Bool.false_eq_true, if_false, fieldTail_toks, Option.map_some, hl, ht0, mkField_plain]
+    · rw [hty]
+      simp only [fieldTail_toks, Option.map_some, hl, ht0, mkField_plain]
+
+/-- the tokens of a label -/
+def labelToks (label : String) (l : Nat) : List PTok :=
+  if label = "repeated " then [T (.ident "repeated") l]
+  else if label = "optional " then [T (.ident "optional") l] else []
+
+/-- a whole field line -/
+def fieldLineToks (label : String) (abs : Bool) (first : String) (rest : List String) (name : String) (num : Int)
+    (l : Nat) : List PTok :=
+  labelToks label l ++ tyToks abs first rest l ++ T (.ident name) l :: tailToks num l
+
+theorem parseField_toks (label : String) (hlab : label = "" ∨ label = "repeated " ∨ label = "optional ")
+    (abs : Bool) (first : String) (rest : List String) (name : String) (num : Int) (l : Nat) (more : List PTok)
+    (hf : IsIdent first) (hkw : abs = false → first ≠ "map")
+    (hkw2 : label = "" → abs = false → first ≠ "repeated" ∧ first ≠ "optional") :
+    parseField (fieldLineToks label abs first rest name num l ++ more) =
+      some (locField label (tyStr abs first rest) name num l (trailOf more), more) := by
+  unfold fieldLineToks
+  rcases hlab with h | h | h
+  · subst h
+    have e : labelToks "" l = [] := by simp [labelToks]
+    rw [e, List.nil_append]
+    cases abs with
+    | true =>
+      have := fieldAfterLabel_plain (T (.sym '.') l) rfl "" true first rest name num l rfl more hf hkw
+      simp only [tyToks, if_true, List.cons_append, List.nil_append, List.append_assoc] at this ⊢
+      simp only [parseField, splitLabel, T] at this ⊢
+      exact this
+    | false =>
+      obtain ⟨h1, h2⟩ := hkw2 rfl rfl
+      have := fieldAfterLabel_plain (T (.ident first) l) rfl "" false first rest name num l rfl more hf hkw
+      simp only [tyToks, Bool.false_eq_true, if_false, List.cons_append, List.nil_append, List.append_assoc] at this ⊢
+      simp only [parseField, splitLabel, T, beq_iff_eq, h1, h2, if_false] at this ⊢
+      exact this
+  · subst h
+    have e : labelToks "repeated " l = [T (.ident "repeated") l] := by simp [labelToks]
+    rw [e]
+    have := fieldAfterLabel_plain (T (.ident "repeated") l) rfl "repeated " abs first rest name num l rfl more hf hkw
+    simp only [List.cons_append, List.nil_append, List.append_assoc, parseField, splitLabel, T, beq_self_eq_true, if_true] at this ⊢
+    exact this
+  · subst h
+    have e : labelToks "optional " l = [T (.ident "optional") l] := by simp [labelToks]
+    rw [e]
+    have := fieldAfterLabel_plain (T (.ident "optional") l) rfl "optional " abs first rest name num l rfl more hf hkw
+    have hne : ("optional" == "repeated") = false := by decide
+    simp only [List.cons_append, List.nil_append, List.append_assoc, parseField, splitLabel, T, hne, beq_self_eq_true,
+      Bool.false_eq_true, if_false, if_true] at this ⊢
+    exact this
+
+/-! ## Part 3: the printed lines, as tokens -/
+
+def toP : Raw → Option PTok
+  | .tok t l => some (T t l)
+  | .comment _ _ => none
+
+/-- the tokens on a line of text -/
+def lineToks (s : String) (l : Nat) : List PTok := (lexL s.toList l).filterMap toP
+
+theorem dotted_toList : ∀ (rest : List String) (acc : String),
+    (dotted acc rest).toList = acc.toList ++ (rest.map fun r => '.' :: r.toList).flatten
+  | [], acc => by simp [dotted]
+  | r :: rs, acc => by
+    have ih := dotted_toList rs (acc ++ "." ++ r)
+    simp only [dotted, List.foldl_cons] at ih ⊢
+    rw [ih]
+    simp [String.toList_append]
+
+theorem stopsI_dot (cs : List Char) : StopsI ('.' :: cs) := by
+  intro c r h; simp only [List.cons.injEq] at h; rw [← h.1]; decide
+theorem stopsI_space (cs : List Char) : StopsI (' ' :: cs) := by
+  intro c r h; simp only [List.cons.injEq] at h; rw [← h.1]; decide
+theorem stops_semi (cs : List Char) : Stops (';' :: cs) := by
+  intro c r h; simp only [List.cons.injEq] at h; rw [← h.1]; decide
+theorem stopsI_nil : StopsI [] := by intro c r h; simp at h
+
+/-- `.r₁.r₂…` followed by something that ends the last word -/
+theorem lexL_dots (l : Nat) : ∀ (rest : List String) (more : List Char), (∀ r ∈ rest, IsIdent r) → StopsI more →
+    (lexL ((rest.map fun r => '.' :: r.toList).flatten ++ more) l).filterMap toP =
+      dotToks rest l ++ (lexL more l).filterMap toP
+  | [], more, _, _ => by simp [dotToks]
+  | r :: rs, more, hr, hm => by
+    have hstop : StopsI ((rs.map fun r => '.' :: r.toList).flatten ++ more) := by
+      cases rs with
+      | nil => simpa using hm
+      | cons x xs => simp only [List.map_cons, List.flatten_cons, List.cons_append]; exact stopsI_dot _
+    have ih := lexL_dots l rs more (fun x hx => hr x (by simp [hx])) hm
+    simp only [List.map_cons, List.flatten_cons, List.cons_append, List.append_assoc]
+    rw [lexL_sym '.' (by decide), lexL_ident r (hr r (by simp)) _ hstop]
+    simp only [List.filterMap_cons, toP, ih, dotToks, List.map_cons, List.flatten_cons, List.cons_append,
+      List.nil_append]
+
+/-- a type name followed by something that ends its last word -/
+theorem lexL_tyStr (abs : Bool) (first : String) (rest : List String) (more : List Char) (l : Nat)
+    (hf : IsIdent first) (hr : ∀ r ∈ rest, IsIdent r) (hm : StopsI more) :
+    (lexL ((tyStr abs first rest).toList ++ more) l).filterMap toP =
+      tyToks abs first rest l ++ (lexL more l).filterMap toP := by
+  have hstop : StopsI ((rest.map fun r => '.' :: r.toList).flatten ++ more) := by
+    cases rest with
+    | nil => simpa using hm
+    | cons x xs => simp only [List.map_cons, List.flatten_cons, List.cons_append]; exact stopsI_dot _
+  unfold tyStr
+  rw [dotted_toList]
+  cases abs with
+  | false =>
+    simp only [Bool.false_eq_true, if_false, String.empty_append, List.append_assoc]
+    rw [lexL_ident first hf _ hstop]
+    simp only [List.filterMap_cons, toP, lexL_dots l rest more hr hm, tyToks, Bool.false_eq_true, if_false,
+      List.nil_append, List.cons_append]
+  | true =>
+    simp only [if_true, String.toList_append, List.append_assoc]
+    have hd : (".".toList : List Char) = ['.'] := by decide
+    rw [hd, List.cons_append, List.nil_append, lexL_sym '.' (by decide), lexL_ident first hf _ hstop]
+    simp only [List.filterMap_cons, toP, lexL_dots l rest more hr hm, tyToks, if_true, List.cons_append,
+      List.nil_append]
+
+theorem isIdent_repeated : IsIdent "repeated" :=
+  ⟨'r', ['e', 'p', 'e', 'a', 't', 'e', 'd'], by decide, by decide, by decide⟩
+theorem isIdent_optional : IsIdent "optional" :=
+  ⟨'o', ['p', 't', 'i', 'o', 'n', 'a', 'l'], by decide, by decide, by decide⟩
+
+/-- `= number;` at the end of a line -/
+theorem lexL_tail (num : Int) (l : Nat) :
+    (lexL (' ' :: '=' :: ' ' :: ((formatInt num).toList ++ [';'])) l).filterMap toP = tailToks num l := by
+  rw [lexL_space, lexL_sym '=' (by decide), lexL_space]
+  unfold formatInt intDigits tailToks numToks
+  rw [String.toList_ofList]
+  by_cases hn : num < 0
+  · simp only [hn, if_true, List.cons_append]
+    rw [lexL_sym '-' (by decide), lexL_natDigits _ _ (stops_semi []), lexL_sym ';' (by decide), lexL_nil]
+    simp [toP]
+  · simp only [hn, if_false]
+    rw [lexL_natDigits _ _ (stops_semi []), lexL_sym ';' (by decide), lexL_nil]
+    simp [toP]
+
+/-- the line of a field without options and comments, as tokens -/
+theorem lineToks_field (n : Nat) (label : String) (hlab : label = "" ∨ label = "repeated " ∨ label = "optional ")
+    (abs : Bool) (first : String) (rest : List String) (name : String) (num : Int) (l : Nat)
+    (hf : IsIdent first) (hr : ∀ r ∈ rest, IsIdent r) (hn : IsIdent name) :
+    lineToks (OptionText.ind n (label ++ tyStr abs first rest ++ " " ++ name ++ " = " ++ formatInt num ++ ";" ++ "")) l =
+      fieldLineToks label abs first rest name num l := by
+  unfold lineToks OptionText.ind fieldLineToks
+  simp only [String.toList_append, String.toList_ofList, List.append_assoc]
+  rw [lexL_spaces]
+  have hsp : (" ".toList : List Char) = [' '] := by decide
+  have heq : (" = ".toList : List Char) = [' ', '=', ' '] := by decide
+  have hsemi : (";".toList : List Char) = [';'] := by decide
+  have hempty : ("".toList : List Char) = [] := by decide
+  rw [hsp, heq, hsemi, hempty]
+  simp only [List.append_nil, List.cons_append, List.nil_append]
+  -- after the label
+  have hbody : ∀ pre : List PTok,
+      pre ++ (lexL ((tyStr abs first rest).toList ++ ' ' :: (name.toList ++ ' ' :: '=' :: ' ' :: ((formatInt num).toList ++ [';']))) l).filterMap toP =
+        pre ++ (tyToks abs first rest l ++ T (.ident name) l :: tailToks num l) := by
+    intro pre
+    rw [lexL_tyStr abs first rest _ l hf hr (stopsI_space _), lexL_space, lexL_ident name hn _ (stopsI_space _)]
+    simp only [List.filterMap_cons, toP, lexL_tail]
+  rcases hlab with h | h | h
+  · subst h
+    have e : labelToks "" l = [] := by simp [labelToks]
+    rw [hempty, e]
+    simpa using hbody []
+  · subst h
+    have e : labelToks "repeated " l = [T (.ident "repeated") l] := by simp [labelToks]
+    have hl : ("repeated ".toList : List Char) = "repeated".toList ++ [' '] := by decide
+    rw [e, hl, List.append_assoc]
+    simp only [List.cons_append, List.nil_append]
+    rw [lexL_ident "repeated" isIdent_repeated _ (stopsI_space _)]
+    simp only [List.cons_append, List.nil_append, lexL_space, List.filterMap_cons, toP]
+    simpa using hbody [T (.ident "repeated") l]
+  · subst h
+    have e : labelToks "optional " l = [T (.ident "optional") l] := by simp [labelToks]
+    have hl : ("optional ".toList : List Char) = "optional".toList ++ [' '] := by decide
+    rw [e, hl, List.append_assoc]
+    simp only [List.cons_append, List.nil_append]
+    rw [lexL_ident "optional" isIdent_optional _ (stopsI_space _)]
+    simp only [List.cons_append, List.nil_append, lexL_space, List.filterMap_cons, toP]
+    simpa using hbody [T (.ident "optional") l]
+
 end J5V.Print.Grammar
